@@ -1,6 +1,8 @@
 #!/usr/bin/env bash
 # Re-run every quick check on the current /repo tree so that the committed evidence describes quick runs.
 cd "$(dirname "$0")/.." || exit 2
+# on the reference tree an unmet coverage guard is a defect of the harness: make it fatal here
+export VERIF_STRICT_GUARDS=1
 rc=0
 for i in $(seq -w 1 20); do
   out=$(./check C$i --tier quick 2>&1); code=$?
